@@ -39,6 +39,16 @@ theorem runFuel_steps (P : Prog) (n : Nat) (c : Cfg) : Steps P c (runFuel P n c)
 theorem runFuel_reach (P : Prog) (n : Nat) (c0 : Cfg) : Reach P c0 (runFuel P n c0).1 :=
   reach_steps Reach.init (runFuel_steps P n c0)
 
+theorem runLive_live {P : Prog} {c0 : Cfg} (n : Nat) : ∀ {c : Cfg}, Live P c0 c → Live P c0 (runLive P n c) := by
+  induction n with
+  | zero => intro c h; exact h
+  | succ n ih =>
+    intro c h
+    unfold runLive
+    cases hs : step P c with
+    | ok c' => exact ih (.step h hs)
+    | error e => exact h
+
 theorem steps_static {P : Prog} {c c' : Cfg} (h : Steps P c c') :
     c.L.handlers <+: c'.L.handlers ∧ c'.L.quitCb = c.L.quitCb ∧ c.L.tcounter ≤ c'.L.tcounter ∧
       (∃ new, c'.tr = new ++ c.tr) ∧ ∃ new, c'.log = new ++ c.log := by
